@@ -237,6 +237,27 @@ def qobj (shots : Int) (instrs : List Instr) : Qobj :=
     memorySlotsExpConfig := cs.length, memorySlotsConfig := cs.length,
     instructions := instrs.map Instr.toQ, shots := shots }
 
+/-! ### Names of controlled gates (`ControlledGate.as_qasm`, `operator/gates.py:2099-2165`) -/
+
+/-- singly controlled targets with a Qobj name (the `cu3` branch reads attributes a `RotationGate` does not
+have and is outside the model) -/
+def ctrl1Names : List (String × String) :=
+  [("x", "cx"), ("y", "cy"), ("z", "cz"), ("h", "ch"), ("rx", "crx"), ("ry", "cry"), ("rz", "crz"), ("s", "cs"), ("sdg", "csdg")]
+
+/-- the name `as_qasm` reports for a controlled gate: it looks at the number of controls and at the type of
+the target, and *not* at the control state; `none` = `NotImplementedError` -/
+def ctrlQasmName (target : String) (ctrlState : List Bool) : Option String :=
+  match ctrlState.length with
+  | 1 => ctrl1Names.lookup target
+  | 2 => if target == "x" then some "ccx" else none
+  | _ => none
+
+/-- what a controlled-gate name of the Qobj instruction set means: the target acts iff every control is |1> -/
+def nameCtrlState (name : String) : Option (List Bool) :=
+  if name == "ccx" then some [true, true]
+  else if (ctrl1Names.map (·.2)).contains name then some [true]
+  else none
+
 /-! ### Count keys: hexadecimal → zero-padded binary -/
 
 def hexDigit (c : Char) : Option Nat :=
